@@ -19,6 +19,8 @@ import PMH.Model.ChaCha
 import PMH.Model.DensMinHash
 import PMH.Model.OrdMinHash
 import PMH.Model.JaccardBounds
+import PMH.Model.JaccardBoundsGen
+import PMH.Model.Exp01Gen
 import Std.Data.HashMap
 /-!
 # `pmhdriver`: line protocol in front of the executable models
@@ -255,7 +257,7 @@ def stepPj : List String → String
 def expOps : ExpOps Float := { exp := Float.exp, ln := Float.log, expm1 := Float.expm1 }
 
 def pmh3Src (e : Exp01 Float) (m : Nat) : Src Float Xo :=
-  { nextX := fun g => Exp01.sample expOps e unif01 g, nextK := fun g => unifUsize 0 m g }
+  { nextX := fun g => Gen.exp01Sample expOps e unif01 g, nextK := fun g => unifUsize 0 m g }
 
 def pmh2Src : Src2 Float Xo := { nextE := exp1, nextU := fun g => .ok g.next }
 
@@ -278,7 +280,7 @@ def stepPmh3 (st : DState) : List String → DState × String
       (match (PMH3.new f64Max m init : Except Err (PMH3 Float Xo)) with
        | .ok s =>
          let lambda := Float.log (m.toFloat / (m - 1).toFloat)
-         ({ st with pmh3 := st.pmh3.insert n (s, Exp01.new expOps lambda) }, "ok")
+         ({ st with pmh3 := st.pmh3.insert n (s, Gen.exp01New expOps lambda) }, "ok")
        | .error e => (st, errWord e))
     | _, _ => (st, "bad-op")
   | ["item", n, tok] => match st.pmh3[n]?, parseItem tok with
@@ -326,24 +328,24 @@ def stepExp : List String → String
   -- `exp01 <lambda hex> <seed hex> <n>` : n samples, and the generator's next raw word afterwards
   | ["exp01", l, sd, n] => match f64OfHex l, u64OfHex sd, n.toNat? with
     | some l, some sd, some n =>
-      let e := Exp01.new expOps l
-      (match iterE (fun g => Exp01.sample expOps e unif01 g) n (Xo.seedFromU64 sd) with
+      let e := Gen.exp01New expOps l
+      (match iterE (fun g => Gen.exp01Sample expOps e unif01 g) n (Xo.seedFromU64 sd) with
        | .ok xs => joinSp (xs.map f64Hex)
        | .error er => errWord er)
     | _, _, _ => "bad-op"
   -- `exp01s <lambda hex> w1 w2 …` : one sample from a SCRIPTED word stream; answer: sample bits and words consumed
   | "exp01s" :: l :: ws => match f64OfHex l, ws.mapM u64OfHex with
     | some l, some ws =>
-      let e := Exp01.new expOps l
+      let e := Gen.exp01New expOps l
       let next : List UInt64 → Float × List UInt64 := fun st => match st with
         | w :: r => (unif01OfU64 w, r)
         | [] => (0.0, [])
-      (match Exp01.sample expOps e next ws with
+      (match Gen.exp01Sample expOps e next ws with
        | .ok (x, rest) => f64Hex x ++ " " ++ toString (ws.length - rest.length)
        | .error er => errWord er)
     | _, _ => "bad-op"
   | ["exp01c", l] => match f64OfHex l with
-    | some l => let e := Exp01.new expOps l; joinSp [f64Hex e.c1, f64Hex e.c2, f64Hex e.c3]
+    | some l => let e := Gen.exp01New expOps l; joinSp [f64Hex e.c1, f64Hex e.c2, f64Hex e.c3]
     | none => "bad-op"
   | ["exp1", sd, n] => match u64OfHex sd, n.toNat? with
     | some sd, some n => (match iterE exp1 n (Xo.seedFromU64 sd) with | .ok xs => joinSp (xs.map f64Hex) | .error er => errWord er)
@@ -438,7 +440,7 @@ def stepSsk (st : DState) : List String → DState × String
   | ["bounds", b, j] => match f64OfHex b, f64OfHex j with
     | some b, some j =>
       let o : BOps Float := { pow := Float.pow, sqrt := Float.sqrt, max := fun x y => if x < y then y else x, min := fun x y => if y < x then y else x }
-      (st, match jaccardBoundsG o b j with | .ok (lo, hi) => f64Hex lo ++ " " ++ f64Hex hi | .error e => errWord e)
+      (st, match Gen.jaccardBounds o b j with | .ok (lo, hi) => f64Hex lo ++ " " ++ f64Hex hi | .error e => errWord e)
     | _, _ => (st, "bad-op")
   | ["card", n] => match st.ssk[n]? with
     | some s => let (c, r) := s.cardinalStats (Float.log1p (s.b - 1.0)); (st, f64Hex c ++ " " ++ f64Hex r)
